@@ -219,6 +219,23 @@ def check_null_storage(ck):
               "null storage %s is not a constant negative without effects %s" % (name, detail), fa.where())
 
 
+def module_value(tree, e, depth=4):
+    """`e` with a module-level name replaced by the value of its ONE module-level assignment (a constant moved out of a
+    call: `_TYPE = "null"` ... `register(_TYPE, ...)`); anything else is returned as it is."""
+    while isinstance(e, ast.Name) and depth > 0:
+        vals = []
+        for st in tree.body:
+            if isinstance(st, ast.Assign) and any(isinstance(t, ast.Name) and t.id == e.id for t in st.targets):
+                vals.append(st.value)
+            elif isinstance(st, ast.AnnAssign) and isinstance(st.target, ast.Name) and st.target.id == e.id and st.value is not None:
+                vals.append(st.value)
+        if len(vals) != 1:
+            return e
+        e = vals[0]
+        depth -= 1
+    return e
+
+
 def check_null_runner(ck):
     R = "C19.R5"
     ck.rule(R, "null runner: batch_run raises on every path and cannot reach a function body", 2)
@@ -229,12 +246,44 @@ def check_null_runner(ck):
     bad = [q for q in prev if q.endswith("._filter_call") or q == "runner_local.memento_run_local" or q.endswith(".batch_run") and q != fa.qual]
     ck.ob(R, fa.key(None, "no-body"), not bad, "no function body reachable (%d functions explored)" % len(prev) if not bad else
           "the null runner reaches %s via %s" % (bad[0], ck.cg.chain(prev, bad[0])), fa.where())
-    # registered under its own type
+    # registered under its own type: some registration call of the module binds the type name 'null' (a literal, or a
+    # module-level constant that holds it) to this class (by name, or through a module-level alias)
     m = ck.repo.module("runner_null")
-    reg = [n for n in ast.walk(m.tree) if isinstance(n, ast.Call) and A.call_dotted(n) == "RunnerBackend.register"]
-    okr = any(len(c.args) == 2 and A.const_str(c.args[0]) == "null" and A.norm(c.args[1]) == "NullRunnerBackend" for c in reg)
+    reg = [n for n in ast.walk(m.tree) if isinstance(n, ast.Call) and A.call_attr(n) == "register"
+           and (A.call_dotted(n) or "").split(".")[0] in ("RunnerBackend", "NullRunnerBackend")]
+    rp = ck.repo.try_func("runner.RunnerBackend.register")
+    rparams = [p_ for p_ in (rp.params if rp is not None else ["cls", "runner_type", "clazz"]) if p_ not in ("self", "cls")]
+
+    def bound(c):
+        out = {}
+        for i, a in enumerate(c.args):
+            if i < len(rparams) and not isinstance(a, ast.Starred):
+                out[rparams[i]] = a
+        for k in c.keywords:
+            if k.arg:
+                out[k.arg] = k.value
+        return [out.get(p_) for p_ in rparams[:2]]
+
+    okr = False
+    for c in reg:
+        b_ = bound(c)
+        if len(b_) == 2 and b_[0] is not None and b_[1] is not None:
+            t_, k_ = module_value(m.tree, b_[0]), module_value(m.tree, b_[1])
+            if A.const_str(t_) == "null" and A.norm(k_) == "NullRunnerBackend":
+                okr = True
+    # ... and nothing else in the package claims the name (the last registration wins)
+    other = []
+    for om in ck.repo.modules.values():
+        for n in ast.walk(om.tree):
+            if isinstance(n, ast.Call) and A.call_attr(n) == "register" and "Runner" in (A.call_dotted(n) or "").split(".")[0]:
+                b_ = bound(n)
+                if len(b_) == 2 and b_[0] is not None and b_[1] is not None and A.const_str(module_value(om.tree, b_[0])) == "null" \
+                        and A.norm(module_value(om.tree, b_[1])) != "NullRunnerBackend":
+                    other.append((om, n))
+    okr = okr and not other
     ck.ob(R, "runner_null::register", okr, "'null' runner type resolves to NullRunnerBackend" if okr else
-          "the 'null' runner type is not registered to NullRunnerBackend", m.relpath)
+          ("the 'null' runner type is also registered to `%s` (%s:%d): the last registration wins" % (A.norm(bound(other[0][1])[1]), other[0][0].relpath, other[0][1].lineno)
+           if other else "the 'null' runner type is not registered to NullRunnerBackend"), m.relpath)
 
 
 def check(ck):
